@@ -169,6 +169,18 @@ def make_specs():
                      ret="u64", shape="a1", receiver="free", gates=1 if flavour == "async" else 0)
             s["tags"], s["events"], s["deps"] = (tg, ev, dp)
             specs.append(s)
+    # dependency chains: a cache that declares another cache's *name* as its dependency.  Only the
+    # request that names a label a cache declares itself reaches it: invalidating `src` by its tag
+    # leaves `mid` alone, invalidating by dependency "chainK_src" empties `mid` and not `top`.
+    # (l2mon keeps the members of a chain in one group.)
+    for k, flavours in enumerate([("global", "global", "global"), ("async", "async", "async"), ("global", "async", "global")], start=1):
+        for pos, flavour in zip(("src", "mid", "top"), flavours):
+            fid += 1
+            s = dict(fid=fid, flavour=flavour, policy="fifo", policy_written=None, limit=[None, 4][k % 2], ttl=None, mem=None, fw=None,
+                     scope_written=None, name=f"chain{k}_{pos}", cache_if=False, invalidate_on=False,
+                     ret="u64", shape="a1", receiver="free", gates=1 if flavour == "async" else 0)
+            s["tags"], s["events"], s["deps"] = {"src": ([f"t_chain{k}"], [f"e_chain{k}"], [f"d_chain{k}"]), "mid": ([], [], [f"chain{k}_src"]), "top": ([], [], [f"chain{k}_mid"])}[pos]
+            specs.append(s)
     return specs
 
 
@@ -388,6 +400,41 @@ def emit_extras(w):
         w(f"pub fn xcall_{fid}(a: u32) -> u64 {{ {'vhooks::block_on(' + path + '(a))' if is_async else path + '(a)'} }}")
         w(f"pub fn xdig_{fid}(a: u32) -> u64 {{ vhooks::dg(&(&a, )) }}")
         rows.append((fid, "dup", path, is_async, False, "fifo", None, attr_line))
+    # Result functions stamped out by a macro_rules! template that receives the return type as a
+    # `$ret:ty` fragment (the compiler hands it to the attribute macro inside an invisible group):
+    # they are Result functions like any other - an Err is never stored
+    w("macro_rules! stamp_result { ($(#[$m:meta])* fn $name:ident, $fid:expr, $ret:ty) => { $(#[$m])* pub fn $name(a: u32) -> $ret { let x = vhooks::enter($fid, vhooks::dg(&(&a, ))); if a % 3 == 0 { Err(format!(\"e{}\", a)) } else { Ok(x.value) } } }; ($(#[$m:meta])* async fn $name:ident, $fid:expr, $ret:ty) => { $(#[$m])* pub async fn $name(a: u32) -> $ret { let x = vhooks::enter($fid, vhooks::dg(&(&a, ))); if a % 3 == 0 { Err(format!(\"e{}\", a)) } else { Ok(x.value) } } }; }")
+    mres = [("cache", "", "Result<u64, String>"), ("cache", 'scope = "thread", policy = "lru"', "Result<u64, String>"), ("cache", 'limit = 8, policy = "lru"', "std::result::Result<u64, String>"), ("cache_async", "", "Result<u64, String>"), ("cache_async", 'limit = 8', "Result<u64, String>"), ("cache", 'max_memory = "1KB"', "Result<u64, String>")]
+    for macro, attrs, ret in mres:
+        fid += 1
+        is_async = macro == "cache_async"
+        attr_line = f"#[{macro}({attrs})]" if attrs else f"#[{macro}]"
+        name = f"mres_{fid}"
+        w(f"stamp_result!({attr_line} {'async ' if is_async else ''}fn {name}, {fid}, {ret});")
+        w(f"pub fn xcall_{fid}(a: u32) -> u64 {{ {'vhooks::block_on(' + name + '(a))' if is_async else name + '(a)'}.unwrap_or(u64::MAX) }}")
+        w(f"pub fn xdig_{fid}(a: u32) -> u64 {{ vhooks::dg(&(&a, )) }}")
+        m = _re.search(r"limit = (\d+)", attrs)
+        lim = int(m.group(1)) if m else None
+        pol = (_re.search(r'policy = "(\w+)"', attrs) or [None, "fifo"])[1]
+        rows.append((fid, "mres", name, is_async, 'scope = "thread"' in attrs, pol, lim, attr_line))
+    # a 64 KiB memory bound that a hundred small values fit under, and values that need most of
+    # it: long vectors whose elements own heap very unevenly (l2mon's big-memory probe sums the
+    # footprints of the listed entries after every call)
+    w("pub const BIGM_BOUND: usize = 65_536;")
+    # (every capacity equals the length, so that a clone of the value occupies what the value does)
+    w("pub fn big_value(a: u32) -> Vec<String> {\n    if a < 1000 {\n        vec![\"y\".repeat(480 + (a % 7) as usize * 16)].into_boxed_slice().into_vec()\n    } else {\n        let n = 1100 + (a % 300) as usize;\n        let empty = 150 + (a % 90) as usize;\n        let target = 50_000 + (a % 5) as usize * 2_500;\n        let each = (target - 24 - n * 24) / (n - empty - 1);\n        let mut v = Vec::with_capacity(n);\n        v.push(format!(\"{:016x}\", a).into_boxed_str().into_string());\n        for _ in 0..empty { v.push(String::new()); }\n        while v.len() < n { v.push(\"z\".repeat(each)); }\n        v.into_boxed_slice().into_vec()\n    }\n}")
+    w("pub fn big_footprint(a: u32) -> usize { let v = big_value(a); let c = v.clone(); assert_eq!(vhooks::Footprint::footprint(&v), vhooks::Footprint::footprint(&c)); vhooks::Footprint::footprint(&c) }")
+    bigs = [("cache", 'max_memory = "64KB"'), ("cache", 'policy = "lru", max_memory = "64KB"'), ("cache_async", 'max_memory = "64KB"'), ("cache_async", 'max_memory = "64KB", policy = "lfu"')]
+    for macro, attrs in bigs:
+        fid += 1
+        is_async = macro == "cache_async"
+        attr_line = f"#[{macro}({attrs})]"
+        name = f"bigm_{fid}"
+        w(f"{attr_line}\npub {'async ' if is_async else ''}fn {name}(a: u32) -> Vec<String> {{\n        let _x = vhooks::enter({fid}, vhooks::dg(&(&a, )));\n        big_value(a)\n}}")
+        w(f"pub fn xcall_{fid}(a: u32) -> u64 {{ {'vhooks::block_on(' + name + '(a))' if is_async else name + '(a)'}.len() as u64 }}")
+        w(f"pub fn xdig_{fid}(a: u32) -> u64 {{ vhooks::dg(&(&a, )) }}")
+        pol = (_re.search(r'policy = "(\w+)"', attrs) or [None, "fifo"])[1]
+        rows.append((fid, "bigm", name, is_async, False, pol, None, attr_line))
     w("pub static EXTRAS: &[ExtraDesc] = &[")
     for (fid, kind, name, is_async, th, pol, lim, attr_line) in rows:
         w("    ExtraDesc { fid: %d, kind: \"%s\", fn_name: \"%s\", is_async: %s, scope_thread: %s, policy: \"%s\", limit: %s, attr_text: %s, call: xcall_%d, digest: xdig_%d },"
